@@ -48,4 +48,20 @@ PROPS = {
                     "memory: Go allocations other than the length-prefixed buffers are bounded by a constant per field"],
         "trusted_base": ["Model/Codec.v is hand-written; tie = cases_c18_*.v correspondence on every run"],
     },
+    "C04": {
+        "gen": ["ConstsGen.v"],
+        "props_file": "Props/C04.v",
+        "coq_targets": ["Props/C04.v"],
+        "level_text": "Proof (core) + correspondence (composition): Gallina model of checksum(), the per-page/per-block checksum cache and its maintenance, CommitJournal, CommitWAL, checkpoint, apply, drop and Open (Model/PageDB.v). "
+                      "Proved for every state and size: checksum() equals the from-scratch flag|XOR of the per-page checksums in effect; the checksums CommitJournal and CommitWAL report are that from-scratch value; drop reports the empty checksum. "
+                      "The agreement of the cache with the bytes on disk along whole histories (Open, checkpoints, applies) is NOT proved: it is re-checked on every run by re-executing every generated history in the model (which must reproduce every reported position) and by recomputing the checksum from the raw database+WAL files with stdlib CRC64.",
+        "level_note": "Trusted: Coq kernel; harness (pager simulator, independent raw-file reader, stdlib hash/crc64). Modelled not verified: db.go text (tie = correspondence of positions after every step); LTX encoding (ltx library). "
+                      "Partial: history-level invariant (cache truthful w.r.t. disk) by correspondence only; lock-page databases (>= 1 GiB at 512-byte pages) not exercised in the quick tier.",
+        "technique": "Coq proof of the block-cached XOR checksum (induction over blocks, invariant Pre) + vm_compute correspondence of whole histories + raw-file CRC64 oracle",
+        "rule": "random histories (rollback commits in DELETE/TRUNCATE/PERSIST with commit/rollback-before-write/rollback-after-write/lock-only outcomes, switch to WAL, WAL transactions with repeated pages, split writes and aborted-then-overwritten frames, application checkpoints PASSIVE/FULL/RESTART/TRUNCATE, LiteFS checkpoints, close/reopen, drop and recreate) at page sizes 512/1024/4096 (2048/8192 thorough) with sizes around 1-12, 254-259 and 510-514 pages; "
+                "distinct = (operation, size class of the image, journal mode) reached; non-trivial = a position whose checksum is compared with the value recomputed from the raw files",
+        "explanation": "The theorem covers all sizes and block layouts at once; correspondence ties the model to db.go on the same histories.",
+        "assumes": ["page contents collide only if their CRC64 values do (pages are represented by their checksum in the model)", "histories are pager-protocol conformant (every page up to the new size is written)"],
+        "trusted_base": ["Model/PageDB.v is hand-written; tie = cases_c04_*.v (whole histories) on every run"],
+    },
 }
